@@ -37,4 +37,10 @@ PROPS = {
         quick=dict(runs=[dict(tests="^TestC03$", checks=400)], min_nontrivial=50),
         thorough=dict(runs=[dict(tests="^TestC03$", checks=2500, shards=16, timeout=3000)], min_nontrivial=5000),
     ),
+    "C07": dict(
+        rule="histories (0..4, thorough 8, batches) over feature-rich worlds: basic auth with shared/missing userlists, auth-url http/https/svc/malformed with both placements, oauth, ssl-passthrough (+http port), ingress- and ConfigMap-based TCP services, blue/green use-server, assign-backend-server-id, all server naming modes, cookie affinity, aliases, strict-host, auth-proxy ranges of size 1/2/85, missing services/secrets/ports, --default-backend-service valid/dangling; after every reconciliation the parsed configuration is linted: static and map-fed backend references, userlists, map/list/crt-list/certificate/CA files, unique section/server names and ids, path ids against the backend's id maps, auth-proxy binds and socket ids, bind addresses. Non-trivial = some configuration of the history held >= 4 kinds of references; distinct by digest.",
+        assumptions=["no HAProxy binary exists in the sandbox: 'HAProxy would accept it' is the reference-integrity definition the statement spells out", "static lua-load / errorfile paths belong to the image and are not checked"],
+        quick=dict(runs=[dict(tests="^TestC07$", checks=250)], min_nontrivial=30),
+        thorough=dict(runs=[dict(tests="^TestC07$", checks=800, shards=16, timeout=3000)], min_nontrivial=1000),
+    ),
 }
